@@ -18,14 +18,14 @@ func tlvMsg(items ...tlvOp) []byte { return refTlvEncode(items) }
 func b1(b byte) []byte { return []byte{b} }
 
 type setupResult struct {
-	AccName   string
-	AccLTPK   []byte
-	SessionK  []byte // SRP session key K (the accessory's "PrivateKey" S)
-	M2Valid   bool
-	M6SigOK   bool
-	ErrAt     string // "" on success, else description of the first deviation
-	ErrCode   int    // TLV error code if the accessory answered with one (-1 none)
-	HTTP      int
+	AccName    string
+	AccLTPK    []byte
+	SessionK   []byte // SRP session key K (the accessory's "PrivateKey" S)
+	M2Valid    bool
+	M6SigOK    bool
+	ErrAt      string // "" on success, else description of the first deviation
+	ErrCode    int    // TLV error code if the accessory answered with one (-1 none)
+	HTTP       int
 	Transcript []string
 }
 
@@ -122,12 +122,12 @@ func refPairSetup(r *rand.Rand, post postFn, password string, id *refIdentity) *
 }
 
 type verifyResult struct {
-	Shared   []byte
-	AccName  string
-	M2SigOK  bool
-	ErrAt    string
-	ErrCode  int
-	HTTP     int
+	Shared  []byte
+	AccName string
+	M2SigOK bool
+	ErrAt   string
+	ErrCode int
+	HTTP    int
 }
 
 // refPairVerify runs a specification pair-verify; accLTPK may be nil (then the accessory signature is checked only for form).
